@@ -42,7 +42,26 @@ class C02(Prop):
                 cur = X.ref_set(cur, path, v)
             if ops:
                 out.append({"stream": "ops", "tag": "hist:%d" % len(ops), "input": {"tree": t, "mode": mode, "ops": ops, "paths": paths}})
+        self._exh = None
+        if tier == "thorough":
+            n_trees = n_cases = 0
+            style = 0
+            for nodes in range(2, 6):
+                for t in X.all_trees(nodes, root="dict"):
+                    n_trees += 1
+                    for path, _v in X.node_paths(t):
+                        for v in (7, {"n": [1]}):
+                            style = (style + 1) % 6
+                            out.append({"stream": "ops", "tag": "exh:write",
+                                        "input": {"tree": t, "mode": "convert", "ops": [["set", X.render(t, path, rng, style=style), v]],
+                                                  "paths": [list(path)]}})
+                            n_cases += 1
+            self._exh = {"exhaustive_scopes": ["every dict-rooted tree with <= 5 nodes over keys {a,b}, leaves {1,'x'} (%d trees): every "
+                                               "node x 2 replacement values as a single write (%d writes)" % (n_trees, n_cases)]}
         return out
+
+    def extra_evidence(self):
+        return getattr(self, "_exh", None) or {}
 
     def run_impl(self, case):
         i = case["input"]
